@@ -53,22 +53,26 @@ def main() -> int:
             "no-semicolon-nl": astgen.Opts(trailing="\n\n"),
             "no-as": astgen.Opts(use_as=False),
         }
+        batch, meta = [], []
         for name, o in variants.items():
-            recs = sqltie.records(stmts, dialect=d, opts=o)
-            got = t2tie.summaries(recs)
-            for s, rec, b, g in zip(stmts, recs, base, got):
-                ck.count()
-                dist["variants"][name] = dist["variants"].get(name, 0) + 1
-                if b.startswith("ERR:InvalidSyntax") or g.startswith("ERR:InvalidSyntax"):
-                    dist["rejected_by_parser"] += 1
-                    continue
-                dist["per_dialect"][d] = dist["per_dialect"].get(d, 0) + 1
-                if b.split("#")[0] not in ("R=;W=",):
-                    ck.nontriv((d, name, rec["sql"]))
-                if b != g:
-                    spec_failures.append({"suite": "metamorphic", "dialect": d, "rewrite": name, "plain_sql": astgen.to_sql(s),
-                                          "rewritten_sql": rec["sql"], "plain_result": b, "rewritten_result": g,
-                                          "spec": "layout, comments, letter case, quoting of lower-case identifiers and extra semicolons change nothing"})
+            for si, rec in enumerate(sqltie.records(stmts, dialect=d, opts=o)):
+                batch.append(rec)
+                meta.append((name, si))
+        got = t2tie.summaries(batch)
+        for (name, si), rec, g in zip(meta, batch, got):
+            s, b = stmts[si], base[si]
+            ck.count()
+            dist["variants"][name] = dist["variants"].get(name, 0) + 1
+            if b.startswith("ERR:InvalidSyntax") or g.startswith("ERR:InvalidSyntax"):
+                dist["rejected_by_parser"] += 1
+                continue
+            dist["per_dialect"][d] = dist["per_dialect"].get(d, 0) + 1
+            if b.split("#")[0] not in ("R=;W=",):
+                ck.nontriv((d, name, rec["sql"]))
+            if b != g:
+                spec_failures.append({"suite": "metamorphic", "dialect": d, "rewrite": name, "plain_sql": astgen.to_sql(s),
+                                      "rewritten_sql": rec["sql"], "plain_result": b, "rewritten_result": g,
+                                      "spec": "layout, comments, letter case, quoting of lower-case identifiers and extra semicolons change nothing"})
         # tie on a rewritten variant (the model sees the parser's tree of the noisy text)
         recs = sqltie.records(stmts[: (40 if quick else 400)], dialect=d, opts=astgen.Opts(noise=noise_fn(r, 0.6), kw_case="mixed", id_case="mixed"))
         for x in t2tie.run_scripts(recs):
